@@ -1,5 +1,5 @@
 """Data for MANIFEST.json (bin/mkmanifest)."""
-HOOK_COMMITS = ["ed34141", "9ae5561", "4ea2e60", "1c8a90d", "5804a2b", "ed6bb5f", "a8f0024"]
+HOOK_COMMITS = ["ed34141", "9ae5561", "4ea2e60", "1c8a90d", "5804a2b", "ed6bb5f", "a8f0024", "2ae9299"]
 NOTES = ("Machine-checked proof in Coq 8.16 over executable Gallina models of the back-end logic; each model is tied to /repo on every run "
          "by a correspondence run (extracted OCaml model vs the Go code on generated inputs) and/or by facts regenerated from the source "
          "(translator -> coq/gen). Oracles (math/big, encoding/*, x/net/html, node, strace) only search for failing inputs. "
@@ -243,9 +243,14 @@ CHECKS = {
                  "no slash, ? exactly one character), and fileFilter accepts a path iff a --match pattern matches the base name and the last matching "
                  "--include / --exclude pattern is an include (K130: `?` was compiled to an optional character; repaired). Ties: strace skeletons vs ops_of; the "
                  "extracted reader vs the real concatFileReader Read call by Read call; compile_src / glob_matches / file_filter vs the real compilePattern "
-                 "(regexp source bytes, Go regexp matches) and fileFilter on 3,000 cases (verif-tagged hooks). Partial: which destination a file gets and "
-                 "what else is preserved (flag parsing, createTasks, NewTask, attribute preservation) is not modelled; it is decided by search only - "
-                 "generated trees x invocation shapes compared with a Go reference of the documented rules, every untouched path hashed."),
+                 "(regexp source bytes, Go regexp matches) and fileFilter on 3,000 cases (verif-tagged hooks). DESTINATIONS: Cli/PathModel transcribes "
+                 "filepath.Clean / Join / Dir / Rel and NewTask; for every clean root, every input below it and every spelling of the output directory, "
+                 "Rel returns exactly the components below the root, the destination is the cleaned output directory followed by exactly these components "
+                 "(hidden names kept), two inputs below one root never share a destination, and the destination never leaves the output directory "
+                 "(destination_mirrors_the_input_tree, no_two_inputs_share_a_destination, destination_stays_below_the_output_directory); tied to the "
+                 "real functions and the real NewTask on ~550 triples per run. Partial: which root createTasks derives for each input, flag parsing and "
+                 "attribute preservation are not modelled; they are decided by search only - generated trees x invocation shapes compared with a Go "
+                 "reference of the documented rules, every untouched path hashed."),
         "note": ("Partial (path planning is search-only). Trusted: Coq kernel, extraction, driver, strace, the verif hook tests, Go's regexp on the fragment "
                  "^ literal .* [^/]* [^/] $, the reference implementation of the documented rules in harness/cmd/clifs/ref.go."),
     },
